@@ -54,11 +54,22 @@ func c11Harness(maxRows int) Harness {
 		cd := m.t("calendar_dates.txt")
 		s1, _ := cal.get(0, "service_id")
 		s2, _ := cal.get(1, "service_id")
-		s3 := "X1"
+		// service ids may begin with '#' (a comment character in other CSV dialects, an ordinary
+		// character in GTFS): the second calendar service and the exception-only one do
+		s3 := "#X1"
+		for _, f := range []string{"calendar.txt", "trips.txt"} {
+			t := m.t(f)
+			for r := range t.Rows {
+				if v, _ := t.get(r, "service_id"); v == s2 {
+					t.set(r, "service_id", "#"+s2)
+				}
+			}
+		}
+		s2 = "#" + s2
 		svc := []string{s1, s2, s3}
 		cal.set(0, "start_date", dates[1])
 		cal.set(0, "end_date", dates[3])
-		calOpt := c.Free("calendar", 5)
+		calOpt := c.Free("calendar", 6)
 		dup := false
 		switch calOpt {
 		case 0:
@@ -77,6 +88,10 @@ func c11Harness(maxRows int) Harness {
 		case 4:
 			cal.set(1, "service_id", s1) // same id, different flags and range (row 1 keeps its own cells)
 			dup = true
+		case 5:
+			// a one-day service: start_date == end_date (the probe dates "inside" and "end" then lie outside)
+			cal.Rows = cal.Rows[:1]
+			cal.set(0, "end_date", dates[1])
 		}
 		nRows := c.Free("exception_rows", maxRows+1)
 		proto := append([]string{}, cd.Rows[0]...)
@@ -93,7 +108,7 @@ func c11Harness(maxRows int) Harness {
 			cd.set(r, "date", dates[d])
 			cd.set(r, "exception_type", fmt.Sprint(ty+1))
 			desc = append(desc, fmt.Sprintf("(%s,%s,%d)", svc[sv], c11DateNames[d], ty+1))
-			if sv == 0 && (d == 0 || d == 4) && ty < 2 && (calOpt == 0 || calOpt == 3 || calOpt == 4) {
+			if sv == 0 && (d == 0 || d == 4) && ty < 2 && (calOpt == 0 || calOpt == 3 || calOpt == 4 || calOpt == 5) {
 				outside = true
 			}
 			if sv == 0 && d < 5 && ty < 2 && (calOpt == 0 || calOpt == 3 || calOpt == 4) {
@@ -176,7 +191,7 @@ func init() {
 	register(&Check{
 		ID:    "C11",
 		Level: "model_checking",
-		Rule: "full product: calendar.txt {s1, empty, absent, s1+s2, s1 twice} x 0..2 (thorough 0..3) exception rows over 3 services x 6 dates (before/start/inside/end/after the s1 range, unparseable) x 3 exception types x 13 (zone of the first agency, date set) combinations: New_York, London, unknown, Sydney, Lord_Howe, Japan, EST5EDT (names without a slash) with January dates; New_York, Sydney, Lord_Howe with the southern DST switch days; New_York, Sydney, Japan with dates in the years 1, 1677, 2262 and 9999 x map iteration starts 0, 1, 2 at every library range; " +
+		Rule: "full product: calendar.txt {s1, empty, absent, s1+s2, s1 twice, s1 as a one-day service}; service ids beginning with #; x 0..2 (thorough 0..3) exception rows over 3 services x 6 dates (before/start/inside/end/after the s1 range, unparseable) x 3 exception types x 13 (zone of the first agency, date set) combinations: New_York, London, unknown, Sydney, Lord_Howe, Japan, EST5EDT (names without a slash) with January dates; New_York, Sydney, Lord_Howe with the southern DST switch days; New_York, Sydney, Japan with dates in the years 1, 1677, 2262 and 9999 x map iteration starts 0, 1, 2 at every library range; " +
 			"non-trivial = distinct archives with at least one exception row; oracle = reference merge (all admissible readings) + direct invariants (unique ids, start <= exception <= end)",
 		Assumptions: []string{"two calendar rows with one id: either row may win", "an exception row with an unsupported type creates nothing, adds no date, and may or may not widen an existing range"},
 		Scenarios: func(tier string) []*Scenario {
